@@ -71,14 +71,14 @@ Section Top.
   Hypothesis HlowP : lowPrefix <= 0.
   Hypothesis Hds : 0 <= dictSize.
 
-  (* Full-block decoding of a strictly valid block by the safe loop; the history the block may
+  (* Full-block decoding of a strictly valid block (fast loop on or off); the history the block may
      reference lies in the prefix region [lowPrefix, 0) of the destination memory, preceded (in
      external-dictionary mode) by the dictionary: this is the memory view [vget]. *)
-  Theorem dec_generic_valid_safe_loop (B hist D : list Z) cap m0 :
+  Theorem dec_generic_valid (fastloop : bool) (B hist D : list Z) cap m0 :
     strict_valid hist B = Some D -> bytes B -> src_at srcm 0 B ->
     out_at (vget lowPrefix dictm dictSize m0) 0 (rev hist) -> Z.of_nat (length hist) <= - lowPrefix + hroom dict dictSize ->
     Z.of_nat (length D) <= cap ->
-    let '(r, m, k) := dec_generic false false dict srcm (Z.of_nat (length B)) cap lowPrefix rlow dictm dictSize m0 in
+    let '(r, m, k) := dec_generic fastloop false dict srcm (Z.of_nat (length B)) cap lowPrefix rlow dictm dictSize m0 in
     r = Z.of_nat (length D) /\ forall i, 0 <= i < Z.of_nat (length D) -> get m i = nth (Z.to_nat i) D 0.
   Proof.
     intros Hv Hb Hs Hh Hhl Hcap.
@@ -132,9 +132,9 @@ Section Top.
         destruct (off_ok (o1 + 256 * o2) && (4 <=? ml + 4)) eqn:E4; [|discriminate].
         cbn [total_len fold_right s_lits s_mlen] in Htl. unfold total_len in *. lia.
     - assert (E2 : (Z.of_nat (length B) =? 0) = false) by (unfold byte in *; lia). rewrite E2.
-      cbn [andb].
-      pose proof (run_sim false dict srcm (Z.of_nat (length B)) cap lowPrefix rlow dictm dictSize HlowP Hds
-                    _ _ _ _ Ep (rev hist) rout' (mkD 0 0 m0 true) (Z.to_nat (Z.of_nat (length B)) + 2) eq_refl Eapp Eend Hb) as HR.
+      pose proof (run_sim_fast false dict srcm (Z.of_nat (length B)) cap lowPrefix rlow dictm dictSize HlowP Hds
+                    _ _ _ _ Ep (rev hist) rout' (mkD 0 0 m0 true) (Z.to_nat (Z.of_nat (length B)) + 2)
+                    (fastloop && negb (cap <? FASTLOOP_SAFE_DISTANCE)) eq_refl Eapp Eend Hb) as HR.
       cbn [ip op dm] in HR.
       destruct HR as (s' & Hrun & Hout); try lia.
       + exact Hs.
